@@ -429,6 +429,19 @@ def main(prop, tier, seed):
                         if got[0] != "ok":
                             run.violation(dict(engine="validate", clause="valid-refused", op="under-specified:" + what, route=route),
                                           "[valid-refused] %s model with %s: %s %s" % (fam, what, got[0], got[1]), dict(ini=render(secs)))
+            # sections of the user's own, referred to through ${SECTION:KEY} (the manual: any other section may hold values): whatever
+            # they are called - also names close to the names of potable's own sections
+            for fam in ("pair", "eam"):
+                for name in ("Potential-Parameters", "Potential-Params", "Fit-Variables", "Variables-Fe", "Species-Data", "Pairs", "Tabulation-Notes", "Constants", "EAM-Embed-Old", "Table-Forms"):
+                    secs = base(fam)
+                    secs.append([name, [["A_AlAl", "1000.0"], ["note", "kept for reference"]]])
+                    setv(secs, "Pair", "Al-Al", "as.buck ${%s:A_AlAl} 0.3 32.0" % name)
+                    for route, got in (("api", run_api(render(secs))), ("cli", run_cli_file(render(secs), d))):
+                        run.evaluations += 1
+                        run.replayed += 1
+                        if got[0] != "ok":
+                            run.violation(dict(engine="validate", clause="valid-refused", op="user-section", route=route),
+                                          "[valid-refused] %s model with a section of the user's own, [%s], referred to by ${%s:A_AlAl}: %s %s" % (fam, name, name, got[0], got[1]), dict(ini=render(secs)))
             # ---- the models the repository ships (manual examples, quick start, tests' resources) are well-formed: each must be
             # accepted as it stands, through the command line and the Python API
             import glob
